@@ -1,8 +1,59 @@
-import PyGam.Drv.Common
+import PyGam.Model.Invariance
+import PyGam.Model.Penalty
+import PyGam.Drv.TermParse
 namespace PyGam.Drv.C13
-open PyGam PyGam.Drv
+open PyGam PyGam.Drv PyGam.Inv
 
-/-- operations of the C13 model driver (`C13 <op> <args…>`); `none` ↦ `bad-op` -/
-def handle : List String → Option String
+def mkMat (rows cols : Nat) (l : List Rat) : Array (Array Rat) :=
+  let a := l.toArray
+  (Array.range rows).map (fun i => (Array.range cols).map (fun j => a[i * cols + j]!))
+
+def ofMat (a : Array (Array Rat)) (i j : Nat) : Rat := a[i]![j]!
+def ofVec (a : Array Rat) (i : Nat) : Rat := a[i]!
+
+def ratAbs (x : Rat) : Rat := if x < 0 then 0 - x else x
+def maxAbs (n : Nat) (u : Nat → Rat) : Rat :=
+  (List.range n).foldl (fun acc j => let d := ratAbs (u j); if acc < d then d else acc) 0
+
+/-- specification-level periodic family (not used by the C13 generators, which avoid the periodic penalty) -/
+def perPen : Nat → Nat → Nat → Rat := fun n => cycPen n 2
+
+/-- operations of the C13 model driver (`C13 <op> <args…>`); `none` ↦ `bad-op`.  Exact rationals throughout.
+
+* `quad <terms> | <coef…>` → `βᵀ P β` with `P = penaltyAll terms` (the Penalty / Terms model: lam-weighted sums,
+  Kronecker lifting, block-diagonal assembly) — with the lams in the tokens set to 1 on the varied penalty and 0
+  elsewhere this is the `J` of the theorems
+* `neq <n> <m> | B | A | w | y | β` → `<RSS> | <βᵀAβ> | <max |Nβ - rhs|> | <max |rhs|>` : weighted RSS (`Inv.rss`), penalty
+  value and the residual of the penalised normal equations `normalMat … β = normalRhs …` at the real coefficients -/
+def handle (toks : List String) : Option String :=
+  match toks with
+  | "quad" :: rest =>
+    match splitBar rest with
+    | [ts, cs] => do
+        let (terms, r) ← pTerms ts
+        if r ≠ [] then none else
+        let c ← parseRats? cs
+        let k := nCoefsAll terms
+        if c.length ≠ k then none else
+        let P := (Array.range k).map (fun i => (Array.range k).map (fun j => penaltyAll perPen terms i j))
+        some (showRat (quadForm k (ofMat P) (ofVec c.toArray)))
+    | _ => none
+  | "neq" :: n :: m :: rest =>
+    match splitBar rest with
+    | [[], bs, as, ws, ys, βs] => do
+        let n ← n.toNat?; let m ← m.toNat?
+        let bl ← parseRats? bs; let al ← parseRats? as; let wl ← parseRats? ws
+        let yl ← parseRats? ys; let βl ← parseRats? βs
+        if bl.length ≠ n * m ∨ al.length ≠ m * m ∨ wl.length ≠ n ∨ yl.length ≠ n ∨ βl.length ≠ m then none else
+        let B := ofMat (mkMat n m bl); let A := ofMat (mkMat m m al); let w := ofVec wl.toArray
+        let y := ofVec yl.toArray; let β := ofVec βl.toArray
+        let keep : Nat → Bool := fun _ => true
+        let mu := ofVec ((Array.range n).map (linearPredictor m B β))
+        let N := ofMat ((Array.range m).map (fun i => (Array.range m).map (fun j => normalMat n B keep w A i j)))
+        let rhs := ofVec ((Array.range m).map (normalRhs n B keep w y))
+        let res := maxAbs m (fun i => mulVec m N β i - rhs i)
+        some (showRat (rss n w y mu) ++ " | " ++ showRat (quadForm m A β) ++ " | " ++ showRat res ++ " | "
+              ++ showRat (maxAbs m rhs))
+    | _ => none
   | _ => none
 end PyGam.Drv.C13
